@@ -50,9 +50,21 @@ def rule_txn_mute(ctx):
            "partitions_to_add is not the pending set", text="pending-getter")
     # pending set discipline
     allowed = {(f"{TXN}.__init__", "store"), (f"{TXN}.maybe_add_partition_to_txn", ".add"), (f"{TXN}.partition_added", ".remove"),
-               (f"{TXN}.partition_added", ".discard"), (f"{TXN}.error_transaction", ".clear"), (f"{TXN}.fatal_error", ".clear")}
+               (f"{TXN}.partition_added", ".discard"), (f"{TXN}.fatal_error", ".clear")}
     for wf, wn, how in ctx.attr_writers_of("_pending_txn_partitions", "TransactionManager", fields=("_txn_manager", "txn_manager")):
+        if how == ".clear" and (wf.qualname, how) not in allowed:
+            # the pending set IS the mute: emptying it un-mutes the queued batches of partitions the coordinator never acknowledged. That is
+            # harmless only where those batches die with it (fatal_error: the sender task ends and _fail_all fails every queued batch)
+            ctx.ob(R, wf, wn, False, f"{wf.name} clears the set of partitions still waiting for AddPartitionsToTxn while their batches stay queued: the next sender "
+                                     "iteration drains and PRODUCES them although the coordinator never acknowledged the partitions (and an abort that finds nothing "
+                                     "registered sends no EndTxn)", text="pending-cleared-only-when-batches-die")
+            continue
         ctx.ob(R, wf, wn, (wf.qualname, how) in allowed, f"{wf.qualname} mutates the pending-partition set with {how}", text="pending-writer:" + how)
+    # fatal_error's clear is covered by the sender's death: _fail_all fails the accumulator's batches (C02 fail-all decides that callback)
+    ffa = ctx.fn(f"{SENDER}._fail_all")
+    cfa = ctx.cfg(ffa)
+    ctx.ob(R, ffa, ffa.node, bool(cfa.calls(attr="fail_all")) and bool(cfa.calls(attr="fatal_error")), "the sender's death no longer fails the queued batches together with the transaction",
+           text="fatal-clear-covered")
     fa = ctx.fn(f"{TXN}.partition_added")
     ca = ctx.cfg(fa)
     rem = [n for n in ca.calls(attr="remove") + ca.calls(attr="discard") if unparse(n.ast.func.value) == "self._pending_txn_partitions"]
@@ -653,6 +665,15 @@ def rule_error_tables(ctx):
     et = c.calls(attr="error_transaction")
     ok = len(et) == 1 and "TopicAuthorizationFailedError" in unparse(et[0].ast) and not c.enclosing(et[0], types=(ast.For,))
     ctx.ob(R, fi, fi.node, ok, "unauthorized topics do not put the transaction in the abortable-error state", text="topic-auth-abortable")
+    # the set it is raised from accumulates over the WHOLE reply: created once before the loops, added to inside, tested after them
+    if ok:
+        src = [x for x in ast.walk(et[0].ast) if isinstance(x, ast.Name) and any(isinstance(def_value(d), (ast.Call, ast.Set, ast.List)) for d in local_defs(c, x.id))]
+        acc = src[0].id if src else None
+        ds = local_defs(c, acc) if acc else []
+        adds = [n for n in c.calls(attr="add") + c.calls(attr="append") if acc and unparse(n.ast.func.value) == acc]
+        oka = len(ds) == 1 and not c.enclosing(ds[0], types=(ast.For,)) and bool(adds) and all(c.enclosing(a_, types=(ast.For,)) for a_ in adds)
+        ctx.ob(R, fi, (ds[0] if ds else fi.node), oka, f"the collection of unauthorized topics (`{acc}`) is not created exactly once before the reply loop: reset per topic it forgets every topic but the "
+                                                       "last, an authorization failure reported first is dropped and the request is retried for ever", text="topic-auth-accumulates")
     # BaseHandler.do
     fd = ctx.fn(f"{MOD}.BaseHandler.do")
     cd = ctx.cfg(fd)
@@ -745,5 +766,7 @@ def run(ctx):
     rule_error_tables(ctx)
     c01.rule_errno_unique(ctx, "error-effects")
     c02.rule_future_ownership(ctx)
+    from .common import rule_instance_state
+    rule_instance_state(ctx, ("aiokafka.producer.",))
     rep.nd("atomicity as seen by a read-committed reader under all fault / crash points (needs histories)")
     rep.nd("liveness: every transaction ends the way requested once faults cease")
